@@ -95,6 +95,26 @@ def stale_sk_part(run):
     return explore(run, scen, random=30 if q else 300, pct=100 if q else 1000, dfs=300 if q else 4000, preempt=2, label="stale-sk")
 
 
+def cold_race_part(run):
+    """C14 / C02 on the SDK's own in-memory metastore: cold factories race under the cooperative scheduler (ColdRaceTrace.tla)."""
+    run.vdrv(sched=True)
+    binary = run.gobin("concdrv")
+    run.spec_files("ColdRaceTrace.tla")
+    trace = os.path.join(run.work, "trace.ndjson")
+    for workers, n in ((2, 240 if run.quick else 3000), (3, 150 if run.quick else 3000)):
+        res = run.drv(["-coldrace", str(n), "-workers", str(workers), "-seed", str(run.seed), "-trace", trace], timeout=1500, binary=binary)
+        run.absorb(res)
+        rej = validate_traces(run, "ColdRaceTrace.tla", {}, [], trace, "cold-race-%d" % workers, max_reject=3)
+        for x in rej:
+            ev = x["event"]
+            what = {"enc": "a racing process got no record", "fresh": "a record handed out in the race does not decrypt in a fresh process (or the racers named different keys)",
+                    "final": "deadlock or panic"}.get(ev.get("e"), str(ev.get("e")))
+            run.findings.append({"kind": "cold-race/%s" % ev.get("e"), "detail": "%s: %s: %s; run %s" % (what, x["why"], json.dumps(ev)[:300],
+                                 json.dumps([e for e in x["trace"] if e.get("e") in ("enc", "fresh")])[:700]), "case": {"coldrace": True, "trace": x["trace"]}})
+        run.notes.append("cold race: %d schedules of %d cold factories on one MemoryMetastore" % (res["evaluations"], workers))
+        os.remove(trace)
+
+
 def design(run, module, cfgname):
     """Runs the design-level model check if the specification exists (it is part of the same engine)."""
     from vlib import SPEC
